@@ -172,6 +172,7 @@ func Load(repo string, env []string, overlayFile string) (*Ctx, error) {
 	}
 	sort.Slice(c.allFuncs, func(i, j int) bool { return fnKey(c.allFuncs[i]) < fnKey(c.allFuncs[j]) })
 	c.NFuncs = len(c.allFuncs)
+	curCtx = c
 	return c, nil
 }
 
